@@ -46,6 +46,13 @@ STUB = ['__hash__ of supp.util.Location and supp.name.MultiName -> keyed hash of
 
 SCRATCH = None
 _helpers = {}
+# Name space of the case-determined scratch paths: the same for a pool worker, its helper interpreters and the replay
+# of what they found (it is recorded in the replay file), different for the self-test interpreters and for checks of
+# another tree that may run at the same time.
+NS = os.environ.get('VERIF_C17_NS') or (
+    prng.digest([os.environ.get('SUPP_REPO', '/repo'), os.environ.get('VERIF_OUT', '')])[:6] +
+    os.environ.get('VERIF_NS_SUFFIX', ''))
+os.environ['VERIF_C17_NS'] = NS
 
 
 def worker_init():
@@ -108,7 +115,7 @@ def materialise(case):
     # (their hashes order any set they are put in), so the worker, its helper interpreters and a later replay
     # must all see the same paths.
     core = {k: v for k, v in case.items() if k in ('kind', 'prog', 'spec', 'spec_b', 'path', 'requests', 'req_seed')}
-    root = '/tmp/vsimc17-' + prng.digest(core)
+    root = '/tmp/vsimc17-%s-%s' % (case.get('_ns') or NS, prng.digest(core))
     shutil.rmtree(root, ignore_errors=True)
     os.makedirs(root)
     if case['kind'] == 'project':
@@ -469,7 +476,7 @@ def run_unit(unit):
         stats['probes']['real_files'] = 1
         log.add(os.path.basename(unit['path']), idseeds, hashseeds)
         for v in vs[:2]:
-            c = dict(case, idseeds=[v['configs'][0][1], v['configs'][-1][1]], hashseeds=[0, v['configs'][-1][0]])
+            c = dict(case, idseeds=[v['configs'][0][1], v['configs'][-1][1]], hashseeds=[0, v['configs'][-1][0]], _ns=NS)
             vios.append({'sig': v['sig'], 'case': c, 'detail': v['detail']})
         return {'evals': stats['evals'], 'keys': sorted(stats['keys']), 'faults': stats['faults'], 'probes': stats['probes'],
                 'violations': vios, 'samples': [], 'digest': log.digest()}
@@ -482,7 +489,7 @@ def run_unit(unit):
         log.add(i, prng.digest(case), idseeds, hashseeds, len(requests_of(case)))
         if vs and len(vios) < 4:
             for v in vs[:2]:
-                c = dict(case, idseeds=[v['configs'][0][1], v['configs'][-1][1]],
+                c = dict(case, idseeds=[v['configs'][0][1], v['configs'][-1][1]], _ns=NS,
                          hashseeds=[0, v['configs'][-1][0]], focus=v['request'],
                          origin={'seed': unit['seed'], 'mode': unit['mode'], 'run': i})
                 vios.append({'sig': v['sig'], 'case': c, 'detail': v['detail']})
